@@ -20,7 +20,9 @@ class ReplayResult:
 
 
 def _is_global(b):
-    return '"global":true' in b[:4000] if isinstance(b, str) else b.get("global")
+    if not isinstance(b, str): return b.get("global")
+    head = b[:4000]
+    return '"global":true' in head or '"global": true' in head
 
 
 def _run_shard(exe, path, tmp, timeout_s, env, per_shard_timeout, dump=False):
